@@ -107,3 +107,6 @@ func (w *Freelist) ReadImage(img []byte) {
 func (w *Freelist) ReloadImage(img []byte) {
 	w.f.Reload((*common.Page)(unsafe.Pointer(&img[0])))
 }
+
+// AllocMark returns the transaction recorded as the allocator of the run starting at id.
+func (w *Freelist) AllocMark(id uint64) (uint64, bool) { return fl.VerifAllocMark(w.f, id) }
